@@ -103,7 +103,8 @@ fn cram_indented(indent: &str, from: &str) -> String {
     if from.is_empty() {
         "".into()
     } else {
-        from.trim_end()
+        from.strip_suffix('\n')
+            .unwrap_or(from)
             .split('\n')
             .map(|line| format!("{}{}", indent, line))
             .collect::<Vec<_>>()
